@@ -133,7 +133,7 @@ func enumRequests(g groupDef, tier string, yield func(core.Case) bool) {
 		}
 	}
 	bools := []bool{false, true}
-	isList := g.t.name == "list_i32" || g.t.name == "list_string"
+	isList := g.t.name == "list_i32" || g.t.name == "list_string" || g.t.name == "list_binary"
 	for _, r := range allReq {
 		for _, kind := range []string{"json", "empty", "form"} {
 			if g.level != "root" && kind != "json" {
@@ -165,7 +165,7 @@ func enumRequests(g groupDef, tier string, yield func(core.Case) bool) {
 							continue
 						}
 						for _, nb := range bools {
-							if nb && g.t.name != "binary" {
+							if nb && g.t.name != "binary" && g.t.name != "list_binary" {
 								continue
 							}
 							for ob := 0; ob < 32; ob++ {
